@@ -166,7 +166,19 @@ pub fn reach_sender_ex(ctx: &mut Ctx, framing: SendFraming, use_call: bool, meth
         }
     }
     let via_added = via_added && !use_call;
-    let added = if via_added { std::mem::take(&mut headers) } else { Vec::new() };
+    // the caller's amendment carries the framing header; a Content-Length that accompanies a
+    // chunked coding stays on the original request (chunked still wins)
+    let added: Vec<Hdr> = if via_added {
+        let chunked_kind = !matches!(framing, SendFraming::Sized(_) | SendFraming::SizedWithOtherCoding(..));
+        let (a, b): (Vec<Hdr>, Vec<Hdr>) = std::mem::take(&mut headers).into_iter().partition(|(n, _)| !chunked_kind || n.eq_ignore_ascii_case("transfer-encoding"));
+        headers = b;
+        a
+    } else {
+        Vec::new()
+    };
+    if ctx.chance(1, 4) {
+        headers.push(("host".into(), b"a.test".to_vec()));
+    }
     let req = build_request(method, 11, "http://a.test/upload", &headers);
     let mut buf = vec![0u8; 4096];
     if use_call {
@@ -188,6 +200,14 @@ pub fn reach_sender_ex(ctx: &mut Ctx, framing: SendFraming, use_call: bool, meth
         let mut f = lib("Flow<Prepare>::proceed", || f.proceed());
         ctx.steps += 1;
         let n = lib("Flow<SendRequest>::write", || f.write(&mut buf)).map_err(|e| format!("head write: {e}"))?;
+        if ctx.chance(1, 4) {
+            // a caller that writes "until nothing more comes out"
+            let mut extra = [0u8; 64];
+            let k = lib("Flow<SendRequest>::write", || f.write(&mut extra)).map_err(|e| format!("head write after completion: {e}"))?;
+            if k != 0 {
+                return Err(format!("{} bytes emitted after the head was complete", k));
+            }
+        }
         match lib("Flow<SendRequest>::proceed", || f.proceed()) {
             Ok(Some(SendRequestResult::SendBody(b))) => Ok((Sender::Flow(b), buf[..n].to_vec())),
             Ok(Some(_)) => Err("unexpected state after head".into()),
